@@ -14,13 +14,15 @@ ID = 'C20'
 RULE = ('cases = (type, syntax, kind in options/snippets/variables, key in existing/new, subset of the 5 overriding layers); '
         'all 2^5 subsets x 3 kinds x 2 keys x every known syntax of both types + 2 unknown syntax names, each observed on '
         'Config(...) and through expand(); layers 1-2 (type / syntax defaults) are exercised by temporarily binding '
-        'emmet.config.SYNTAX_CONFIG to an extended deep copy. Non-trivial = at least two layers define the key; distinct by the case tuple')
+        'emmet.config.SYNTAX_CONFIG to an extended deep copy; plus sampled multi-key configurations: 2-6 keys of mixed kinds, each with its own random layer subset, '
+        'with decoy values in the layers of another syntax and of the other type (must never be consulted). Non-trivial = at least two layers define the key; distinct by the case tuple')
 ASSUMPTIONS = ['layer order: defaults < type defaults < syntax defaults < global[type] < global[syntax] < call config',
                'emmet.config.SYNTAX_CONFIG is looked up at call time (if the attribute disappears only layers 3-5 are varied and the evidence says so)',
                'the caller-visible `text` key of the call config is judged by C08, not here']
-FLOORS = {'quick': {'config': 6000, 'expand': 2500, 'unknown-syntax': 4, 'immutability': 4000},
-          'thorough': {'config': 6000, 'expand': 2500, 'unknown-syntax': 4, 'immutability': 4000}}
-REQUIRED_MONITORS = ['oracle:layer-order', 'oracle:expand-layer', 'oracle:bystanders', 'oracle:builtin-digest', 'oracle:caller-digest']
+FLOORS = {'quick': {'config': 6000, 'expand': 2500, 'unknown-syntax': 4, 'immutability': 4000, 'multi-key': 6000},
+          'thorough': {'config': 6000, 'expand': 2500, 'unknown-syntax': 4, 'immutability': 4000, 'multi-key': 400000}}
+NMULTI = {'quick': 300, 'thorough': 20000}
+REQUIRED_MONITORS = ['oracle:layer-order', 'oracle:expand-layer', 'oracle:layer-order-multi', 'oracle:expand-layer-multi', 'oracle:bystanders', 'oracle:builtin-digest', 'oracle:caller-digest']
 
 SYN = {'markup': ['html', 'xml', 'xsl', 'jsx', 'js', 'pug', 'slim', 'haml', 'vue', 'svelte', 'xhtml', 'nosuch', 'my-syntax'],
        'stylesheet': ['css', 'sass', 'scss', 'less', 'sss', 'stylus', 'nosuch', 'my-syntax']}
@@ -123,7 +125,8 @@ def observe_expand(typ, kind, key, u, g):
             return out[len('padding'):out.index('10px')] if out.startswith('padding') and '10px' in out else ('?' + out)
         if kind == 'snippets':
             out = emmet.expand(key, u, g)
-            return out.split(':')[0].split(' ')[0]
+            m = re.match(r'[\w-]+', out)        # property name: independent of the between / after options varied next to it
+            return m.group(0) if m else ('?' + out)
     return None
 
 
@@ -197,6 +200,89 @@ def run_combo(ctx, C, typ, syn, kind, key, vals, subset, orig_sc, can_patch):
     return cfg
 
 
+def run_multi(ctx, C, typ, syn, rng, orig_sc, can_patch):
+    """Several keys of mixed kinds at once, each defined by its own random subset of layers, plus decoy values in the
+    layers of ANOTHER syntax and of the OTHER type: every key must resolve to its own most specific layer (a layer that
+    replaces a whole table instead of merging into it, or reads a neighbour's layer, shows only with more than one key)."""
+    from emmet.config import Config
+    keys = rng.sample(KEYS[typ], rng.randint(2, min(6, len(KEYS[typ]))))
+    other_typ = 'stylesheet' if typ == 'markup' else 'markup'
+    other_syn = rng.choice([s for s in SYN[typ] + SYN[other_typ] if s != syn and s != typ])
+    sc = copy.deepcopy(orig_sc)
+    g = {}
+    u = {'type': typ, 'syntax': syn}
+    plan = []
+    for kind, key, vals in keys:
+        subset = tuple(rng.random() < 0.45 for _ in range(5))
+        if not can_patch:
+            subset = (False, False) + subset[2:]
+        plan.append((kind, key, vals, subset))
+        if subset[0]:
+            sc.setdefault(typ, {})
+            sc[typ][kind] = dict(sc[typ].get(kind, {}))
+            sc[typ][kind][key] = vals[0]
+        if subset[1]:
+            sc.setdefault(syn, {})
+            sc[syn][kind] = dict(sc[syn].get(kind, {}))
+            sc[syn][kind][key] = vals[1]
+        if subset[2]:
+            g.setdefault(typ, {}).setdefault(kind, {})[key] = vals[2]
+        if subset[3]:
+            g.setdefault(syn, {}).setdefault(kind, {})[key] = vals[3]
+        if subset[4]:
+            u.setdefault(kind, {})[key] = vals[4]
+        # decoys: layers that must not be consulted for (typ, syn)
+        if rng.random() < 0.7:
+            g.setdefault(other_syn, {}).setdefault(kind, {})[key] = 'DECOY-syntax' if not isinstance(vals[0], (dict, list)) else type(vals[0])()
+        if rng.random() < 0.5 and other_typ != syn:
+            g.setdefault(other_typ, {}).setdefault(kind, {})[key] = 'DECOY-type' if not isinstance(vals[0], (dict, list)) else type(vals[0])()
+        if can_patch and rng.random() < 0.5 and other_syn not in (typ, syn):
+            sc.setdefault(other_syn, {})
+            sc[other_syn][kind] = dict(sc[other_syn].get(kind, {}))
+            sc[other_syn][kind][key] = 'DECOY-syntax-default' if not isinstance(vals[0], (dict, list)) else type(vals[0])()
+    u0, g0 = caller_digest(u), digest(g)
+    case = {'multi': True, 'type': typ, 'syntax': syn, 'other_syntax': other_syn, 'plan': [[k, kk, list(s)] for k, kk, v, s in plan], 'user': u, 'global': g}
+    if can_patch:
+        C.SYNTAX_CONFIG = sc
+    try:
+        ctx.ev('multi-key')
+        r = core.call(Config, copy.deepcopy(u), copy.deepcopy(g))
+        if r[0] == 'exc':
+            ctx.violation('config-exception', case, {'exc': list(core.exc_site(r[1]))})
+            return
+        cfg = r[1]
+        for kind, key, vals, subset in plan:
+            exp = expected_value(C, orig_sc, typ, syn, kind, key, subset, vals)
+            got = getattr(cfg, kind).get(key, ABSENT)
+            ctx.mon('oracle:layer-order-multi')
+            if got != exp:
+                ctx.violation('wrong-layer', case, {'key': [kind, key], 'subset': list(subset), 'expected': exp, 'actual': got, 'where': 'Config.' + kind})
+                continue
+            want = exp
+            if kind == 'snippets' and exp is ABSENT:
+                want = key if typ == 'markup' else None
+            elif kind == 'snippets' and typ == 'stylesheet':
+                want = exp.split(':')[0]
+            if kind == 'variables' and exp is ABSENT:
+                want = None
+            if want is not None and not (kind == 'options' and key == 'output.indent' and any(k[1] == 'inlineElements' for k in plan)):
+                ru = core.call(observe_expand, typ, kind, key, u, g)
+                if ru[0] == 'exc':
+                    ctx.violation('expand-exception', case, {'key': [kind, key], 'exc': list(core.exc_site(ru[1]))})
+                elif ru[1] is not None:
+                    ctx.mon('oracle:expand-layer-multi')
+                    if ru[1] != want:
+                        ctx.violation('wrong-layer', case, {'key': [kind, key], 'expected': want, 'actual': ru[1], 'where': 'expand output'})
+        if sum(1 for p in plan if sum(p[3]) >= 1) >= 2:
+            ctx.seen(('multi', typ, syn, repr(case['plan'])))
+    finally:
+        if can_patch:
+            C.SYNTAX_CONFIG = orig_sc
+    ctx.mon('oracle:caller-digest')
+    if caller_digest(u) != u0 or digest(g) != g0:
+        ctx.violation('caller-dict-mutated', case, {'user': repr(u)[:300], 'global': repr(g)[:300]})
+
+
 def run_shard(desc, ctx):
     import emmet.config as C
     from emmet.config import Config
@@ -247,6 +333,8 @@ def run_shard(desc, ctx):
                 if digest(builtin_tables()) != base_digest:
                     ctx.violation('builtin-table-mutated', {'type': typ, 'syntax': syn, 'kind': kind, 'key': key, 'subset': list(subset)}, {})
                     base_digest = digest(builtin_tables())
+        for _ in range(NMULTI[ctx.tier]):
+            run_multi(ctx, C, typ, syn, ctx.rng, orig_sc, can_patch)
     ctx.mon('oracle:builtin-digest')
     if digest(builtin_tables()) != base_digest:
         ctx.violation('builtin-table-mutated', {'shard': desc}, {})
@@ -254,6 +342,36 @@ def run_shard(desc, ctx):
 
 def replay(case, ctx):
     import emmet.config as C
+    if case.get('multi'):
+        import random
+        # the plan is regenerated from the recorded layers: re-run the resolution and compare every planned key
+        typ, syn = case['type'], case['syntax']
+        orig_sc = C.SYNTAX_CONFIG
+        sc = copy.deepcopy(orig_sc)
+        vals_of = {(k, kk): v for k, kk, v in KEYS[typ]}
+        for kind, key, subset in case['plan']:
+            vals = vals_of[(kind, key)]
+            if subset[0]:
+                sc.setdefault(typ, {})
+                sc[typ][kind] = dict(sc[typ].get(kind, {}))
+                sc[typ][kind][key] = vals[0]
+            if subset[1]:
+                sc.setdefault(syn, {})
+                sc[syn][kind] = dict(sc[syn].get(kind, {}))
+                sc[syn][kind][key] = vals[1]
+        C.SYNTAX_CONFIG = sc
+        try:
+            from emmet.config import Config
+            cfg = Config(copy.deepcopy(case['user']), copy.deepcopy(case['global']))
+            ctx.ev('replay')
+            for kind, key, subset in case['plan']:
+                exp = expected_value(C, orig_sc, typ, syn, kind, key, tuple(subset), vals_of[(kind, key)])
+                got = getattr(cfg, kind).get(key, ABSENT)
+                if got != exp:
+                    ctx.violation('wrong-layer', case, {'key': [kind, key], 'expected': exp, 'actual': got})
+        finally:
+            C.SYNTAX_CONFIG = orig_sc
+        return
     if 'subset' not in case:
         run_shard({'unknown': True}, ctx)
         return
